@@ -23,9 +23,9 @@ import (
 	"fmt"
 	"testing"
 
+	"github.com/keep-network/keep-core/internal/testutils"
 	kit "github.com/keep-network/keep-core/internal/verifkit"
 	vs "github.com/keep-network/keep-core/internal/verifsub"
-	"github.com/keep-network/keep-core/internal/testutils"
 	beaconchain "github.com/keep-network/keep-core/pkg/beacon/chain"
 	"github.com/keep-network/keep-core/pkg/beacon/event"
 	"github.com/keep-network/keep-core/pkg/protocol/group"
